@@ -33,24 +33,23 @@ def call(fn, *a):
         return {"outcome": "exc", "exc": type(e).__name__, "msg": str(e)[:200], "where": where}
 
 
-def judge_read(label, impl_r, model_res, spec_plan, want_len, mat, exact_len=True, sig=""):
+def judge_read(label, impl_r, model_res, spec_bytes, want_len, mat, exact_len=True, sig=""):
     """Compare one read three ways.
 
-    impl_r     what the implementation returned for the request
-    model_res  ('ok', plan) | ('err',) | ('fuel',) | None (no model for this request)
-    spec_plan  plan covering at least want_len bytes according to the specification, or None
-    want_len   number of leading bytes that must equal the spec (the rest, if any, is slack)
-    mat        function plan -> bytes
-    exact_len  implementation must return exactly want_len bytes (stream-level) rather than >= want_len
+    impl_r      what the implementation returned for the request
+    model_res   ('ok', plan) | ('err',) | ('fuel',) | None (no model for this request)
+    spec_bytes  the want_len bytes the specification defines for the request, or None
+    want_len    number of leading bytes that must equal the spec (the rest, if any, is slack)
+    mat         function plan -> bytes (materialises a model plan with the case's backing content)
+    exact_len   implementation must return exactly want_len bytes (stream-level) rather than >= want_len
     """
     fs = []
     io = outcome_of(impl_r)
-    spec_bytes = None
-    if spec_plan is not None:
-        spec_bytes = mat(spec_plan)[:want_len]
-        if len(spec_bytes) != want_len:
-            fs.append(Finding("coq_error", f"{label}: spec plan yields {len(spec_bytes)} bytes, wanted {want_len}"))
-            spec_bytes = None
+    if isinstance(spec_bytes, list):       # a spec plan (older call shape): materialise it
+        spec_bytes = mat(spec_bytes)[:want_len]
+    if spec_bytes is not None and len(spec_bytes) != want_len:
+        fs.append(Finding("coq_error", f"{label}: spec plan yields {len(spec_bytes)} bytes, wanted {want_len}"))
+        spec_bytes = None
     model_bytes = None
     if model_res is not None:
         if model_res[0] == "fuel":
@@ -95,3 +94,172 @@ def judge_read(label, impl_r, model_res, spec_plan, want_len, mat, exact_len=Tru
         fs.append(Finding("model_vs_spec", f"{label}: model predicts an exception where the spec defines bytes",
                           sig + ":mvs-err"))
     return fs
+
+
+# ----------------------------------------------------------------------------- generic reader suite
+from harness.main import Suite  # noqa: E402
+
+
+class ReaderSuite(Suite):
+    """Common driver for byte-range reader suites.
+
+    A case is a dict with at least: size (virtual size in bytes), reqs (list of [kind, a, b]) where kind is
+      'raw'     -> stream._read(a, b)          back-end call (a aligned as the subclass requires)
+      'bytes'   -> stream.seek(a); stream.read(b)   (b = -1 reads to the end)
+      'sectors' -> reader.read_sectors(a, b)   (when sector_iface(case) is not None)
+    Subclasses provide: build_files(case), open_impl(case, files), coq_img(case) (Gallina term for the image),
+    model_term(case, kind, a, b) (term of type res (list seg), or None), spec_fn(case) (term of type Z -> src, may
+    mention img), granule(case), materialiser(case, files), sector_size(case)."""
+
+    fmt = "fmt"
+    shard = 25
+
+    # -- hooks
+    def build_files(self, case):
+        raise NotImplementedError
+
+    def open_impl(self, case, files):
+        raise NotImplementedError
+
+    def coq_img(self, case):
+        raise NotImplementedError
+
+    def model_term(self, case, kind, a, b):
+        return None
+
+    def spec_fn(self, case):
+        raise NotImplementedError
+
+    def granule(self, case):
+        return 512
+
+    def sector_size(self, case):
+        return 512
+
+    def materialiser(self, case, files):
+        return lambda p: core.materialise(p, file=files.get("file"), data=files.get("data"))
+
+    def sectors_call(self, obj, a, b):
+        return obj.read_sectors(a, b)
+
+    # -- machinery
+    def impl(self, case):
+        files = self.build_files(case)
+        out = {"open": None, "reqs": []}
+        try:
+            v = self.open_impl(case, files)
+        except Exception as e:  # noqa: BLE001
+            out["open"] = {"outcome": "exc", "exc": type(e).__name__, "msg": str(e)[:200]}
+            return out
+        out["size"] = int(v.size)
+        for kind, a, b in case["reqs"]:
+            if kind == "sectors":
+                out["reqs"].append(call(self.sectors_call, v, a, b))
+            elif kind == "raw":
+                out["reqs"].append(call(v._read, a, b))
+            else:
+                def f(a=a, b=b):
+                    v.seek(a)
+                    r = v.read(b)
+                    if v.tell() != a + len(r):
+                        return {"outcome": "exc", "exc": "PositionError", "where": "stream",
+                                "msg": f"tell {v.tell()} after reading {len(r)} at {a}"}
+                    return r
+                out["reqs"].append(call(f))
+        return out
+
+    def spec_range(self, case, kind, a, b):
+        """-> (granule-aligned start byte, granule count, byte skip, want_len)"""
+        size = case["size"]
+        g = self.granule(case)
+        if kind == "sectors":
+            ss = self.sector_size(case)
+            a, b = a * ss, b * ss
+            want = b
+        elif kind == "raw":
+            want = max(0, min(b, size - a))
+        else:
+            if a >= size:
+                return 0, 0, 0, 0
+            want = size - a if b < 0 else min(b, size - a)
+        g0 = a // g
+        g1 = (a + want + g - 1) // g
+        return g0 * g, g1 - g0, a - g0 * g, want
+
+    def coq_term(self, case):
+        items = []
+        g = self.granule(case)
+        for kind, a, b in case["reqs"]:
+            start, cnt, _, _ = self.spec_range(case, kind, a, b)
+            spec = f"spec_plan {self.spec_fn(case)} {g} {core.Z(start)} {core.Z(cnt)}"
+            m = self.model_term(case, kind, a, b)
+            items.append(f"({m if m is not None else '(@Err (list seg))'}, {spec})")
+        return f"let img := {self.coq_img(case)} in [" + "; ".join(items) + "]"
+
+    def judge(self, case, impl_res, coq_val):
+        fs = []
+        fmt = self.fmt
+        if impl_res.get("outcome"):
+            return [Finding("impl_fault", f"implementation {impl_res['outcome']}: {impl_res.get('detail', '')}",
+                            f"{fmt}:whole:" + impl_res["outcome"])]
+        if impl_res["open"] is not None:
+            return [Finding("impl_vs_spec", f"open failed on a well-formed image: {impl_res['open']}", f"{fmt}:open:exc")]
+        if impl_res["size"] != case["size"]:
+            fs.append(Finding("impl_vs_spec", f"size {impl_res['size']} != stored {case['size']}", f"{fmt}:size"))
+        files = self.build_files(case)
+        mat = self.materialiser(case, files)
+        for (kind, a, b), r, cv in zip(case["reqs"], impl_res["reqs"], coq_val):
+            _, model_v, spec_v = cv
+            start, cnt, skip, want = self.spec_range(case, kind, a, b)
+            spec_plan = core.plan_of(spec_v)
+            label = f"{kind}({a},{b})"
+            sig = f"{fmt}:{case.get('kind', '')}:{kind}"
+            full = mat(spec_plan)[skip:skip + want]
+            has_model = self.model_term(case, kind, a, b) is not None
+            fs += judge_read(label, r, core.res_of(model_v) if has_model else None, full, want, mat,
+                             exact_len=(kind != "raw"), sig=sig)
+        return fs
+
+    def nontrivial(self, case, impl_res, coq_val):
+        kinds = set()
+        multi = False
+        for cv in coq_val or []:
+            plan = core.plan_of(cv[2])
+            if len(plan) >= 2:
+                multi = True
+            kinds |= {s[0] for s in plan}
+        if multi or len(kinds) >= 2:
+            return core.sha(core.jdump(case).encode())
+        return None
+
+
+def gen_requests(rng, size, unit, n=6, sector=None, raw_align=1, max_bytes=4_000_000):
+    """Requests against a disk of `size` bytes with allocation unit `unit` bytes.
+    sector: sector size when the reader has a read_sectors interface; raw_align: alignment of back-end offsets."""
+    reqs = []
+    kinds = [("raw", 3), ("bytes", 4)] + ([("sectors", 3)] if sector else [])
+    span_cap = max(1, min(3 * unit, max_bytes))
+    for _ in range(n):
+        k = rng.weighted(kinds)
+        if k == "sectors":
+            nsect = max(1, (size + sector - 1) // sector)
+            s = rng.randrange(0, nsect)
+            spu = max(1, unit // sector)
+            span = rng.weighted([(1, 1), (spu, 2), (2 * spu + 1, 3), (nsect, 1)])
+            cnt = max(1, min(nsect - s, rng.randint(1, max(1, span)), max(1, max_bytes // sector)))
+            reqs.append(["sectors", s, cnt])
+        elif k == "raw":
+            a = rng.randrange(0, max(1, size))
+            a -= a % raw_align
+            ln = rng.weighted([(rng.randint(1, span_cap), 3), (rng.randint(1, 700), 1),
+                               (min(max_bytes, size - a + rng.randint(0, 2 * unit + 8192)), 2)])
+            if raw_align > 1:
+                ln = max(raw_align, ln - ln % raw_align)
+            reqs.append(["raw", a, max(1, ln)])
+        else:
+            a = rng.randrange(0, size + 3)
+            ln = rng.weighted([(rng.randint(0, 600), 2), (rng.randint(0, span_cap + 100), 4), (-1, 1), (size, 1)])
+            if size - a > max_bytes and (ln < 0 or ln > max_bytes):
+                ln = max_bytes
+            reqs.append(["bytes", a, ln])
+    return reqs
